@@ -190,7 +190,78 @@ LAYER_TEXT = {
     # line-oriented consumers whose RESULT depends on the division into lines of their model (K6)
     'line2': 'filter line-num == 2',
     'strip-nl': 'strip -trailing-new-lines',
+    # line-oriented transformers of K7 (every variant of `strip`, `char-case`, `filter` / `grep`)
+    'strip': 'strip',
+    'strip-ts': 'strip -trailing-space',
+    'upper': 'char-case -to-upper',
+    'lower': 'char-case -to-lower',
+    'grep-a': 'grep a',
+    'grep-blank': "grep -full '[ \\t]*'",
+    'not-grep-a': 'filter ! contents matches a',
+    'line1': 'filter line-num == 1',
+    'all': 'filter line-num >= 1',
+    'none': 'filter constant false',
 }
+
+# layers that are `filter`s: their result is a StringSourceWithCachedFrozen
+FILTER_LAYERS = ('filter', 'filter2', 'seq', 'line2', 'grep-a', 'grep-blank', 'not-grep-a', 'line1', 'all', 'none')
+
+
+def nums_layer(ranges: str) -> str:
+    """`filter -line-nums RANGE...`; ranges: RANGEs separated by a space, each N, N:, :N or N:N, N an integer != 0"""
+    return 'nums:' + ranges
+
+
+def is_nums_layer(layer) -> bool:
+    return isinstance(layer, str) and layer.startswith('nums:')
+
+
+def ref_line_nums(text: str, ranges: str) -> str:
+    """The documentation of `filter -line-nums`: "A line matches iff it's line number matches any RANGE"; RANGE is "INT:
+    the single line number INT", ":INT line numbers from 1 to INT (including)", "INT: line numbers starting from INT",
+    "INT:INT from INT (to the left) to INT (to the right) (including)"; "Line numbers start at 1"; "Negative numbers
+    denote line numbers relative to the end. -1 is the last line number, -2 is the second to last line number, etc."""
+    lines = ref_lines(text)
+    n = len(lines)
+
+    def line_number(limit: str) -> int:
+        v = int(limit)
+        return v if v > 0 else n + 1 + v
+
+    out = ''
+    for num in range(1, n + 1):
+        matches = False
+        for r in ranges.split(' '):
+            if ':' not in r:
+                matches = matches or num == line_number(r)
+            else:
+                lo, hi = r.split(':')
+                matches = matches or ((lo == '' or line_number(lo) <= num) and (hi == '' or num <= line_number(hi)))
+        if matches:
+            out = out + lines[num - 1]
+    return out
+
+WHITE_SPACE_K7 = ' \t\n'  # the white space characters of the alphabet of K7
+
+
+def _only_spaces_and_tabs(s: str) -> bool:
+    for ch in s:
+        if ch != ' ' and ch != '\t':
+            return False
+    return True
+
+
+def _line_contents(line: str) -> str:
+    """a line without the new-line that ends it (what a line matcher sees)"""
+    return line[:-1] if line[-1:] == '\n' else line
+
+
+def _lines_where(text: str, predicate) -> str:
+    out = ''
+    for line in ref_lines(text):
+        if predicate(_line_contents(line)):
+            out = out + line
+    return out
 
 
 # -- layers that CHANGE the number of new-lines of a line (K6): ('replace', PATTERN, PRESERVE-NEW-LINES, REPLACEMENT)
@@ -266,6 +337,38 @@ def denoted_by_layer(layer, text: str) -> str:
         while n > 0 and text[n - 1] == '\n':
             n -= 1
         return text[:n]
+    # -- K7.  `strip`: "Removes all white space at the beginning and end of the text (by default)";
+    # -trailing-space: "Removes all white space at the end of the text"
+    if layer in ('strip', 'strip-ts'):
+        n = len(text)
+        while n > 0 and text[n - 1] in WHITE_SPACE_K7:
+            n -= 1
+        i = 0
+        if layer == 'strip':
+            while i < n and text[i] in WHITE_SPACE_K7:
+                i += 1
+        return text[i:n]
+    # `char-case`: "Converts all cased characters to uppercase / lowercase"
+    if layer == 'upper':
+        return text.upper()
+    if layer == 'lower':
+        return text.lower()
+    # `filter`: "Keeps lines matched by MATCHER, and discards lines not matched" (`grep` = filter contents matches);
+    # the contents of a line do not include the new-line that ends it; line numbers start at 1; -1 is the last line
+    if layer == 'grep-a':
+        return _lines_where(text, lambda contents: 'a' in contents)
+    if layer == 'not-grep-a':
+        return _lines_where(text, lambda contents: 'a' not in contents)
+    if layer == 'grep-blank':
+        return _lines_where(text, _only_spaces_and_tabs)
+    if layer == 'line1':
+        return ''.join(ref_lines(text)[:1])
+    if is_nums_layer(layer):
+        return ref_line_nums(text, layer[5:])
+    if layer == 'all':
+        return text
+    if layer == 'none':
+        return ''
     return text
 
 
@@ -284,6 +387,8 @@ def _layer(kind: str, model, tfs, m: int):
         if kind[0] == 'replace-literal':  # self-test only: the replacement string written with \\n escapes
             return _transformer(replace_source_text(kind, False), tfs, m).transform(model)
         return _transformer(replace_source_text(kind), tfs, m, {'R': kind[3]}).transform(model)
+    if is_nums_layer(kind):
+        return _transformer('filter -line-nums ' + kind[5:], tfs, m).transform(model)
     return _transformer(LAYER_TEXT[kind], tfs, m).transform(model)
 
 
@@ -353,7 +458,7 @@ def spec_has_cache(spec) -> bool:
     """Does the source contain a StringSourceWithCachedFrozen (=> a SpooledTextFile when frozen)?"""
     if isinstance(spec[0], tuple) or spec[0] in ('prog', 'prog-i'):
         return True
-    return any(layer in ('filter', 'filter2', 'seq', 'writer', 'fdwriter', 'line2') for layer in spec[1:])
+    return any(layer in FILTER_LAYERS or layer in ('writer', 'fdwriter') or is_nums_layer(layer) for layer in spec[1:])
 
 
 def spec_needs_fd(spec) -> bool:
@@ -897,6 +1002,141 @@ def k6_reshape(s: str, r: str, m: int, k: int) -> bool:
     return ob.post(_k6_all(c, s, r, m, k))
 
 
+# ---------------------------------------------------------------------------------- K7
+# Line-oriented transformers on DEGENERATE texts, observed through every access route.  A transformer that works on
+# the sequence of lines of its model has corner cases exactly where that sequence degenerates: the empty text (no
+# line at all), a text of white space only (every line is "empty" to `strip`), a single unterminated line, a text
+# that ends in several new-lines, a text from which the transformer removes everything.  What as_lines delivers
+# there must still be THE lines of the text the other routes deliver: no element is empty, every element but the
+# last ends in new-line, joined they are as_str = the contents of as_file = what write_to writes -- before and after
+# freezing, under a cache or not, for every buffer size; and `num-lines == K` says the same plain and in `&&`.
+# Transformers: every variant of `strip`, `char-case`, `filter` by line number / by contents (`grep`) / -line-nums
+# (incl. from the end), `replace` that deletes or produces white space -- alone and every ordered PAIR of them.
+
+ALPHA_K7 = ' \t\na'
+
+K7_STRIPS = ('strip', 'strip-ts', 'strip-nl')
+K7_CASE = ('upper', 'lower')
+K7_FILTERS = ('grep-a', 'grep-blank', 'not-grep-a', 'line1', 'line2', 'all', 'none')
+K7_NUMS = tuple(nums_layer(r) for r in ('1', '-1', '-2', '2:', ':-2', '-2:', '2:-2', '1 -1'))
+K7_REPLACES = (replace_layer(' ', False, ''), replace_layer('a', False, ''), replace_layer('\n', False, ''),
+               replace_layer('a', False, ' '), replace_layer(' ', True, '\n'))
+K7_LAYERS = K7_STRIPS + K7_CASE + K7_FILTERS + K7_NUMS + K7_REPLACES
+
+REAL_K7 = (
+    'exactly_lib.impls.types.string_transformer.impl.strip_space.Parser',
+    'exactly_lib.impls.types.string_transformer.impl.strip_space._StripWhiteSpaceTransformer',
+    'exactly_lib.impls.types.string_transformer.impl.strip_space._strip_space',
+    'exactly_lib.impls.types.string_transformer.impl.strip_space._strip_trailing_space',
+    'exactly_lib.impls.types.string_transformer.impl.strip_space._strip_trailing_new_lines',
+    'exactly_lib.impls.types.string_transformer.impl.case_converters._CaseConverter',
+    'exactly_lib.impls.types.string_transformer.impl.filter.parse.Parser',
+    'exactly_lib.impls.types.string_transformer.impl.filter.parse.GrepShortcutParser',
+    'exactly_lib.impls.types.string_transformer.impl.filter.line_nums.transformers.SingleLineRangeTransformer',
+    'exactly_lib.impls.types.string_transformer.impl.filter.line_nums.sources.segments_source',
+    'exactly_lib.impls.types.line_matcher.model_construction.original_and_model_iter_from_file_line_iter__interval',
+) + REAL_K6
+
+
+def _pre_k7(s: str, m: int, k: int) -> bool:
+    c = ob.case()
+    if m < 1:
+        return False
+    if 'mmax' in c and m > c['mmax']:
+        return False
+    if len(s) > c['maxlen'] or not in_alphabet(s, c['alphabet']):
+        return False
+    if not (c.get('wrappers') and not c.get('native')) and k != 0:
+        return False
+    return True
+
+
+def _k7_accesses(spec, seq, s: str, m: int, oracle_bug) -> bool:
+    """Every access of the sequence delivers the denoted text / exactly the lines of the denoted text; and what
+    as_lines / iterating as_file delivers is a well-formed division into lines (the property's own statement: no
+    empty element, only the last element may lack the new-line)."""
+    fs = ffs.FakeFs()
+    tfs = ffs.FakeDirFileSpace(fs)
+    ffs.install(fs)
+    src, text = build_source(spec, fs, tfs, (s,), m)
+    lines = ref_lines(text)
+    if oracle_bug:
+        # seeded oracle error: "every text has at least one line (the empty text has one empty line)"
+        lines = lines if lines else ['']
+    for acc in seq:
+        whole, got_lines = _access(src, acc, None)
+        if whole is not None and not (whole == text):
+            return False
+        if got_lines is not None:
+            if not (got_lines == lines):
+                return False
+            if not oracle_bug and not _well_formed_lines(got_lines):
+                return False
+    return True
+
+
+def _well_formed_lines(lines) -> bool:
+    n = len(lines)
+    for i in range(n):
+        line = lines[i]
+        if len(line) == 0:
+            return False
+        if i < n - 1 and line[-1] != '\n':
+            return False
+        if '\n' in line[:-1]:
+            return False
+    return True
+
+
+def k7_chains(c):
+    """the chains of transformers of a case: every layer of `firsts` alone (if `seconds` has the empty chain ()) and
+    followed by every layer of `seconds`"""
+    out = []
+    for first in c['firsts']:
+        for second in c['seconds']:
+            out.append((first,) if second == () else (first, second))
+    return out
+
+
+def _k7_all(c, s: str, m: int, k) -> bool:
+    """k is None: every K0 from 0 to (number of lines of the text) + 1 is tried."""
+    for root in c['roots']:
+        for chain in k7_chains(c):
+            spec = tuple(root) + tuple(chain)
+            for seq in c['seqs']:
+                if not _k7_accesses(spec, seq, s, m, c.get('oracle_bug')):
+                    return False
+            if c.get('wrappers'):
+                if k is None:
+                    text = s
+                    for layer in spec[1:]:
+                        text = denoted_by_layer(layer, text)
+                    ks = range(0, len(ref_lines(text)) + 2)
+                else:
+                    ks = (k,)
+                for k_i in ks:
+                    if not _k6_num_lines(spec, c['wrappers'], s, m, k_i):
+                        return False
+    return True
+
+
+def k7_degenerate(s: str, m: int, k: int) -> bool:
+    """
+    pre: _pre_k7(s, m, k)
+    post: _
+    """
+    c = ob.case()
+    if c.get('native'):
+        # text and buffer size made concrete (one path per value: the solver's path tree enumerates them), then the
+        # real classes run natively on every source / chain / access sequence of the case
+        s = _concrete_str(s, c['alphabet'])
+        m = ob.concrete_int(m, 1, c['mmax'])
+        with _C14_chfix.no_tracing():
+            ok = _k7_all(c, s, m, None)
+        return ob.post(ok)
+    return ob.post(_k7_all(c, s, m, k))
+
+
 # ---------------------------------------------------------------------------------- long concrete texts
 # Length thresholds that are CONSTANTS of the code (the 2**16 BUFFER_SIZE of contents_of_existing_path, the
 # default memory buffer io.DEFAULT_BUFFER_SIZE = 8192, the 100 + 1 extra characters `equals` reads of a
@@ -1054,11 +1294,12 @@ def _layer_name(layer) -> str:
 
 
 def _vis(s: str) -> str:
-    return s.replace('\n', 'N')
+    return s.replace('\n', 'N').replace(' ', 'S')
 
 
 def _alpha_name(alphabet: str) -> str:
-    names = {'a': 'a', 'b': 'b', 'x': 'x', '\n': 'LF', '\r': 'CR', '\x0c': 'FF', 'é': 'e-acute'}
+    names = {'a': 'a', 'b': 'b', 'x': 'x', '\n': 'LF', '\r': 'CR', '\x0c': 'FF', 'é': 'e-acute', ' ': 'space',
+             '\t': 'tab'}
     return '{' + ','.join(names[c] for c in alphabet) + '}'
 
 
@@ -1215,6 +1456,47 @@ def _k6_ob(pat, preserve, roots, befores, afters, seqs, maxlen, rmaxlen, timeout
         entry='parse_string_transformer.parsers().full -> transform(model) -> contents().as_str / as_lines / write_to / as_file')
 
 
+def _k7_ob(name, firsts, seconds, roots, seqs, maxlen, timeout, wrappers=(), mmax=None, alphabet=None, **extra) -> Ob:
+    """mmax given: the native variant (text and buffer size <= mmax made concrete, one path per value, then native
+    execution).  Otherwise everything stays symbolic (every buffer size >= 1, every K0)."""
+    native = mmax is not None
+    alphabet = ALPHA_K7 if alphabet is None else alphabet
+    case = dict(firsts=tuple(firsts), seconds=tuple(seconds), roots=tuple(tuple(r) for r in roots), seqs=tuple(seqs),
+                maxlen=maxlen, alphabet=alphabet, wrappers=tuple(wrappers), native=native)
+    if native:
+        case['mmax'] = mmax
+    case.update(extra)
+
+    def alts(xs):
+        xs = [_layer_name(x) if x != () else '-' for x in xs]
+        return xs[0] if len(xs) == 1 else '{' + ', '.join(xs) + '}'
+
+    what = 'every access sequence in %s (A=as_str L=as_lines W=write_to F=as_file Z=freeze)' % (list(seqs),)
+    if wrappers:
+        what += '; matcher `%s` written as %s on a fresh source each, %s' % (
+            K4_MATCHERS['num-lines'], ' / '.join('`%s`' % K4_WRAPPERS[w].replace('%s', 'M') for w in wrappers),
+            'every K0 from 0 to the number of lines + 1' if native else 'every K0 in Z')
+    return Ob(
+        name='K7:' + name, fn='k7_degenerate', case=case, kernel='K7', selector=native,
+        bound='%severy source ROOT|T1%s with ROOT in %s, T1 in %s%s (each parsed by the real parser; nums:R = `filter -line-nums R`, '
+              'the others: %s); %s; every text of <= %d characters over %s (so: the empty text, every text of white space only, '
+              'a single unterminated line, texts ending in several new-lines); %s; oracle: the documented denotation of the '
+              'chain, and as_lines = the maximal new-line-terminated segments of it (no empty element)' % (
+                  '[selector: text and buffer size are made concrete one path per value, then the real classes run natively] '
+                  if native else '',
+                  '' if tuple(seconds) == ((),) else '[|T2]', ['|'.join(r) for r in roots], alts(firsts),
+                  '' if tuple(seconds) == ((),) else ', T2 in ' + alts(seconds),
+                  '; '.join('%s = `%s`' % (k, LAYER_TEXT[k]) for k in K7_STRIPS + K7_CASE + K7_FILTERS), what, maxlen,
+                  _alpha_name(alphabet),
+                  ('every memory buffer size m in 1..%d' % mmax) if native else 'every memory buffer size m >= 1 (Z)'),
+        timeout=timeout, real=REAL_K7,
+        stubs=STUBS_FS + ((STUB_NATIVE,) if native else (STUB_RE,)) + ((STUB_INT, STUB_FILECMP) if wrappers else ()),
+        outside=('white space other than space, tab and new-line (CR, FF, VT, the Unicode spaces); cased characters other '
+                 'than a / A; regular expressions other than those listed; chains of more than two of the transformers',
+                 'real files: see K2'),
+        entry='parse_string_transformer.parsers().full -> transform(model) -> contents().as_str / as_lines / write_to / as_file')
+
+
 STUB_NATIVE = ('tracing suspended (crosshair.tracers.NoTracing) once text, replacement string and buffer size are concrete: '
                'the real classes (and the real `re`) run natively on the stand-in file system')
 ALPHA_K6 = 'ab\n'
@@ -1344,6 +1626,34 @@ def obligations(tier: str) -> List[Ob]:
                       oracle_bug=True))
     obs[-1].expect = ob.REFUTE
     obs[-1].bound = 'seeded oracle error: "a transformed text has one line per line of its model"'
+
+    # ---- K7: line-oriented transformers on degenerate texts (empty, white space only, one unterminated line, several
+    # final new-lines), observed through every access route
+    seqs7 = ['LAWFZLAWF', 'ZFLAW']  # as_lines first / frozen first, as_file first
+    roots7 = [('str',), ('file',), ('str', 'writer')]
+    n7 = 4
+    t7 = 3000 if thorough else 400
+    # every transformer alone: below a str, a file, a cache; num-lines plain and in && (which freezes)
+    obs.append(_k7_ob('alone:strip,char-case,filter', K7_STRIPS + K7_CASE + K7_FILTERS, [()], roots7, seqs7,
+                      5 if thorough else n7, t7, wrappers=w6, mmax=3 if thorough else 2))
+    obs.append(_k7_ob('alone:line-nums,replace', K7_NUMS + K7_REPLACES, [()], roots7, seqs7,
+                      5 if thorough else n7, t7, wrappers=w6, mmax=3 if thorough else 2))
+    # every ordered pair: the lines a transformer delivers are the input lines of the next one
+    for group, firsts in (('strip', K7_STRIPS), ('char-case,filter', K7_CASE + K7_FILTERS), ('line-nums', K7_NUMS),
+                          ('replace', K7_REPLACES)):
+        obs.append(_k7_ob('pairs:%s|*' % group, firsts, K7_LAYERS, [('str',)] + ([('file',)] if thorough else []), seqs7,
+                          4 if thorough else 3, t7, mmax=3 if thorough else 2))
+    # everything symbolic, every buffer size: `strip` in its three variants alone and under a cache that is frozen
+    for layer in K7_STRIPS:
+        obs.append(_k7_ob('symbolic:%s' % layer, [layer], [(), 'all'], [('str',)], ['LAZLAF'], 3 if thorough else 2, t7,
+                          alphabet=' \na'))
+    obs.append(_k7_ob('seeded-oracle-error', ['strip-ts', 'all'], [()], [('str',)], ['LA'], 2, 120, mmax=1, oracle_bug=True))
+    obs[-1].expect = ob.REFUTE
+    obs[-1].bound = 'seeded oracle error: "every text has at least one line: the empty text has one empty line" (native variant)'
+    obs.append(_k7_ob('seeded-oracle-error:symbolic', ['strip-ts'], [()], [('str',)], ['LA'], 1, 120, alphabet=' \na',
+                      oracle_bug=True))
+    obs[-1].expect = ob.REFUTE
+    obs[-1].bound = 'seeded oracle error: "every text has at least one line: the empty text has one empty line"'
 
     # ---- K3
     t3 = 2400 if thorough else 300
